@@ -1,6 +1,6 @@
 (* TieLib.v -- what the tie theorems share: the contexts in which translated bodies are run, the
    contracts of the helpers, loop reasoning. *)
-From BM Require Export MirLemmas BlockModes.
+From BM Require Export MirLemmas BlockModes Ints_proofs.
 Local Open Scope string_scope.
 Local Open Scope list_scope.
 
@@ -76,6 +76,8 @@ Lemma fits_true lo len n : lo + len <= n -> fits lo len n = true.
 Proof. intros; apply Nat.leb_le; auto. Qed.
 Lemma len_eq_true a b : a = b -> len_eq a b = true.
 Proof. intros; apply Nat.eqb_eq; auto. Qed.
+Lemma len_eq_false a b : a <> b -> len_eq a b = false.
+Proof. intros; apply Nat.eqb_neq; auto. Qed.
 Lemma le_ok_true a b : a <= b -> le_ok a b = true.
 Proof. intros; apply Nat.leb_le; auto. Qed.
 
@@ -172,35 +174,37 @@ Proof. induction l as [|x l IH]; intros H; [congruence|]. destruct l as [|y l]; 
    (blocks, lengths, indices) stay folded; [deref_deep] stays folded too (it is only reached once
    the body has been evaluated, and unfolding it on a symbolic value is exponential) *)
 Ltac ev :=
-  cbv -[deref_deep for_each loopN xor_upto upto in_range fits len_eq le_ok Nat.add Nat.sub Nat.mul Nat.min Nat.div length seq xorb xor_into nth upd_nth
+  cbv -[deref_deep for_each loopN xor_upto upto in_range fits len_eq le_ok Nat.add Nat.sub Nat.mul Nat.min length seq xorb xor_into nth upd_nth
         firstn skipn app splice N.lxor map map2 repeat zeros rd_in rd_out wr_out xor_in2out c_E c_D c_bs c_w last
         le_encode be_encode le_decode be_decode wrap pow2 to_usize N.add N.sub N.mul N.modulo N.leb N.ltb N.eqb concat rev].
 
 (* the same, also through [deref_deep] (once no loop is pending) *)
 Ltac evf :=
-  cbv -[for_each loopN xor_upto upto in_range fits len_eq le_ok Nat.add Nat.sub Nat.mul Nat.min Nat.div length seq xorb xor_into nth upd_nth
+  cbv -[for_each loopN xor_upto upto in_range fits len_eq le_ok Nat.add Nat.sub Nat.mul Nat.min length seq xorb xor_into nth upd_nth
         firstn skipn app splice N.lxor map map2 repeat zeros rd_in rd_out wr_out xor_in2out c_E c_D c_bs c_w last
         le_encode be_encode le_decode be_decode wrap pow2 to_usize N.add N.sub N.mul N.modulo N.leb N.ltb N.eqb concat rev].
 
 Ltac solve_len :=
+  try unfold splice;
+  repeat rewrite ?be_encode_length, ?le_encode_length;
   repeat rewrite ?app_length, ?xorb_length, ?firstn_length, ?skipn_length, ?upd_nth_length, ?map_length,
                  ?map2_length, ?repeat_length;
   cbn [length];
   repeat rewrite ?xor_upto_length, ?upto_length by (cbn [length]; lia);
-  cbn [length]; unfold rd_out, xor_in2out, wr_out, cout; cbn [cout];
-  repeat rewrite ?app_length, ?xorb_length, ?firstn_length, ?skipn_length;
+  cbn [length]; try unfold rd_out; try unfold xor_in2out; try unfold wr_out; cbn [cout];
+  repeat rewrite ?app_length, ?xorb_length, ?firstn_length, ?skipn_length, ?be_encode_length, ?le_encode_length;
   lia.
 
 (* evaluate, discharging the bound checks that become visible *)
 Ltac ev_checks :=
   ev;
-  repeat (progress (rewrite ?in_range_true, ?fits_true, ?len_eq_true, ?le_ok_true by solve_len); ev).
+  repeat (progress (rewrite ?in_range_true, ?fits_true, ?len_eq_true, ?le_ok_true, ?len_eq_false by solve_len); ev).
 Ltac evf_checks :=
   evf;
-  repeat (progress (rewrite ?in_range_true, ?fits_true, ?len_eq_true, ?le_ok_true by solve_len); evf).
+  repeat (progress (rewrite ?in_range_true, ?fits_true, ?len_eq_true, ?le_ok_true, ?len_eq_false by solve_len); evf).
 
 Ltac ev_in H :=
-  cbv -[deref_deep for_each loopN xor_upto upto in_range fits len_eq le_ok Nat.add Nat.sub Nat.mul Nat.min Nat.div length seq xorb xor_into nth upd_nth
+  cbv -[deref_deep for_each loopN xor_upto upto in_range fits len_eq le_ok Nat.add Nat.sub Nat.mul Nat.min length seq xorb xor_into nth upd_nth
         firstn skipn app splice N.lxor map map2 repeat zeros rd_in rd_out wr_out xor_in2out c_E c_D c_bs c_w last
         le_encode be_encode le_decode be_decode wrap pow2 to_usize N.add N.sub N.mul N.modulo N.leb N.ltb N.eqb concat rev] in H.
 
@@ -208,7 +212,7 @@ Ltac ev_in H :=
 Ltac eval_sub t :=
   let r := fresh "r" in let H := fresh "Hr" in
   remember t as r eqn:H; ev_in H;
-  repeat (progress (rewrite ?in_range_true, ?fits_true, ?len_eq_true, ?le_ok_true in H by solve_len); ev_in H);
+  repeat (progress (rewrite ?in_range_true, ?fits_true, ?len_eq_true, ?le_ok_true, ?len_eq_false in H by solve_len); ev_in H);
   rewrite H; clear r H; cbv beta iota.
 
 (* the callee frame of [call_src] *)
@@ -234,3 +238,10 @@ Ltac run_rest :=
 
 (* a whole straight-line function: evaluate (discharging bound checks), then the result conversion *)
 Ltac run_fn := unfold call_fn, call_src; ev_checks; evf.
+
+(* [evf] on the left-hand side only (the right-hand side is the model and must stay folded) *)
+Ltac evf_l :=
+  match goal with |- _ = ?R =>
+    let r := fresh "rhs" in let H := fresh "Hrhs" in
+    remember R as r eqn:H; evf; rewrite H; clear H r
+  end.
